@@ -184,6 +184,13 @@ class Ctx:
                 oc = self.edge_outcomes(g, n.id, kind)
                 if oc and oc <= ({"raise"} | acc):
                     out.append((n.ast, pol, n))
+                    # `bad = a >= b` ... `if bad: raise`: the refusing test is the condition the local names
+                    if isinstance(n.ast, ast.Name):
+                        from .canon import local_defs
+                        d = local_defs(fi).get(n.ast.id)
+                        if isinstance(d, ast.Compare) or (isinstance(d, ast.UnaryOp) and isinstance(d.op, ast.Not)):
+                            neg = isinstance(d, ast.UnaryOp)
+                            out.append((d.operand if neg else d, (not pol) if neg else pol, n))
         return out
 
 
